@@ -1,6 +1,6 @@
 /-
 The one non-linear fact behind the calendar model (`Model.Time.civilFromDays`, Hinnant's algorithm): within a 400-year
-era of 146097 days, the year-of-era formula lands in 0..399 and leaves a day-of-year in 0..365. It is a statement
+era of 146097 days, the year-of-era formula lands in 0..399 and leaves a day-of-year in 0..365, and day 365 only occurs before a leap year's March. It is a statement
 about finitely many days; it is checked for every one of them by kernel evaluation (`decide +kernel`, Nat arithmetic)
 and lifted to the integers by `omega`.
 -/
@@ -8,10 +8,14 @@ namespace TableauVerif.Lemmas.CivilEra
 
 def yoeN (doe : Nat) : Nat := (doe - doe / 1460 + doe / 36524 - doe / 146096) / 365
 
+/-- Gregorian leap rule on a year of the era (the era starts in March: its last day, day 365 of a year, is 29 February
+of the NEXT civil year) -/
+def leapN (y : Nat) : Bool := (y % 4 == 0 && y % 100 != 0) || y % 400 == 0
+
 def chkN (doe : Nat) : Bool :=
   let yoe := yoeN doe
   let s := 365 * yoe + yoe / 4 - yoe / 100
-  decide (yoe ≤ 399) && decide (s ≤ doe) && decide (doe - s ≤ 365)
+  decide (yoe ≤ 399) && decide (s ≤ doe) && decide (doe - s ≤ 365) && (decide (doe - s < 365) || leapN (yoe + 1))
 
 theorem chk_all :
     (List.range 147).all (fun a => (List.range 1000).all (fun b => decide (146097 ≤ a * 1000 + b) || chkN (a * 1000 + b))) = true := by
